@@ -525,7 +525,12 @@ static bool watchdog(uint64_t*) {
 
 // config "<family>:<pool>:<fie|rng>:ru<4|8>:s<size>[,<size>...]:a<1|2>:y<classes>"
 //   family rr = two concurrent readers; re = reader, evictor, reader; sq = read, punch, reuse, read (sequential)
+#include <x86intrin.h>
+#include <sys/resource.h>
+static uint64_t prof_t[8], prof_f[8], prof_n; static uint64_t prof_last_t, prof_last_f;
+static void prof(int k) { if (!getenv("C17_PROF")) return; struct rusage ru; getrusage(RUSAGE_SELF, &ru); uint64_t t = __rdtsc(); if (k >= 0) { prof_t[k] += t - prof_last_t; prof_f[k] += ru.ru_minflt - prof_last_f; } prof_last_t = __rdtsc(); prof_last_f = ru.ru_minflt; }
 void pmc_run(const char* config) {
+    prof(-1);
     World w; W = &w;
     {
         char fam[8], pool[8], map[8], sizes[64], ys[8]; int ru, al;
@@ -541,7 +546,9 @@ void pmc_run(const char* config) {
     sv::on_deadlock = on_deadlock; sv::env_next_event = watchdog;
     if (!pmc_verbose()) set_log_output_level(ALOG_FATAL + 1);
     SrcFs src; w.src = &src;
+    prof(0);
     build_cache(false);
+    prof(1);
     pmc_window(1);
 
     w.fsize[0] = w.sizes[pmc_choose((int)w.sizes.size(), PMC_PROG, 0, "source file size")];
@@ -585,6 +592,7 @@ void pmc_run(const char* config) {
         run_actors({1});
     } else pmc_broken("unknown family %s", w.family.c_str());
 
+    prof(2);
     // verification: the whole file through a fresh handle, twice (second time from whatever the first one left in the cache)
     {
         w.actors.clear();
@@ -596,9 +604,13 @@ void pmc_run(const char* config) {
     }
     pmc_window(0);
     pmc_obs("%s| src:%s| y%d f%d | %s", w.log.c_str(), w.srclog.c_str(), w.nyield, w.nfault, disk_state().c_str());
+    prof(3);
     delete w.cfs; w.cfs = nullptr;
+    prof(4);
     sv::fini();
+    prof(5);
     W = nullptr;
+    if (getenv("C17_PROF") && ++prof_n % 200 == 0) { FILE* f = fopen("/tmp/c17b/prof.txt", "a"); fprintf(f, "pid %d n=%llu ", getpid(), (unsigned long long)prof_n); for (int i = 0; i < 6; i++) { fprintf(f, "ph%d: %.1f us %.2f faults | ", i, prof_t[i] / 2.7e3 / 200, (double)prof_f[i] / 200); prof_t[i] = prof_f[i] = 0; } fprintf(f, "\n"); fclose(f); }
 }
 
 #define Q 1
